@@ -2,6 +2,7 @@ package props
 
 import (
 	"fmt"
+	"github.com/cosmos/cosmos-sdk/x/feegrant"
 	"sort"
 	"testing"
 	"time"
@@ -119,6 +120,23 @@ func TestC14(t *testing.T) {
 		decisions := map[string]bool{}
 		var order []string
 		r := NewDistrRun(t, cfg, distrDenoms)
+		// another permanent natural fault: a user's fee allowance for the address of a collector module account that does
+		// not exist yet puts a base account there; the distributor can neither pay nor sweep it from then on
+		occupiedModuleAddrs = map[string]bool{}
+		defer func() { occupiedModuleAddrs = map[string]bool{} }()
+		if rapid.IntRange(0, 3).Draw(t, "occupy") == 0 {
+			for _, a := range cfg.Accounts() {
+				if a.Type == tModule && r.W.App.AccountKeeper.GetAccount(r.Ctx, ModuleAddr(a.Id)) == nil && rapid.Bool().Draw(t, "occupy_"+a.Id) {
+					m, err := feegrant.NewMsgGrantAllowance(&feegrant.BasicAllowance{}, KeyAcc(4).Addr, ModuleAddr(a.Id))
+					if err != nil {
+						panic(err)
+					}
+					if res := RunMsg(r.W.App, r.Ctx, m); res.OK() {
+						occupiedModuleAddrs[ModuleAddr(a.Id).String()] = true
+					}
+				}
+			}
+		}
 		curBlock := 0
 		decide := func(kind, addr string) bool {
 			if curBlock >= faultBlocks {
@@ -237,7 +255,10 @@ func TestC14(t *testing.T) {
 		if lockedSrc && unlockAt >= 0 {
 			cl["locked_source_unlocks_in_the_suffix"] = true
 		}
-		if acyclic && !shared && !(lockedSrc && lockedDst) {
+		if len(occupiedModuleAddrs) > 0 {
+			cl["module_address_occupied_by_a_base_account_no_twin"] = true
+		}
+		if acyclic && !shared && !(lockedSrc && lockedDst) && len(occupiedModuleAddrs) == 0 {
 			cl["twin_compared"] = true
 			lockedSourceUnlocked = false
 			_, twin := runDistrCase(t, cfg, inflows, blocks, func(r *DistrRun) {
